@@ -3,28 +3,58 @@
    expandExpr, extractNonterm, sortTail, Rearrange, list/optional rule synthesis), Syn/ExtLang.v (the
    meaning of the extended notation: [den]).  Lemmas: Syn/Expand_proofs.v. *)
 From Coq Require Import List ZArith Bool Lia Permutation.
-From TM Require Import Gram.Cfg Gram.Derive Syn.Expr Syn.Expand Syn.ExtLang Syn.Expand_proofs Syn.Expand_global Syn.Expand_derives Syn.Expand_correct Syn.SortPerm Syn.Expand_perm.
+From TM Require Import Gram.Cfg Gram.Derive Syn.Expr Syn.Expand Syn.ExtLang Syn.Expand_proofs Syn.Expand_global Syn.Expand_derives Syn.Expand_correct Syn.SortPerm Syn.Expand_perm Syn.ExpandWf Syn.Expand_wf_proofs.
 Import ListNotations.
 Local Open Scope Z_scope.
 
 (* FULL STATEMENT:  forall M (well-formed), X original nonterminal, w,
        ext language of X in M  <->  derives (to_cfg (expand M)) (perm X) w.
-   PROVED: C13_expand_correct is this statement for the model [expand] of syntax.Expand as a whole (phase 1
+   PROVED: C13_expand_correct_wf is this statement for the model [expand] of syntax.Expand as a whole (phase 1
    with extraction and reuse, sortTail / Rearrange, phase 2), for all expression kinds, with the language of a
-   table of nonterminal values defined as the least solution (Knaster-Tarski) of its equations.  Its side
-   conditions are one boolean, [expand_checks] (no Fatal branch, references of the input in range, the
-   permutation built by sortTail is a permutation, references of the intermediate table in range), which
-   ./check evaluates on every generated model.  C13_flat_table_is_cfg identifies the least solution of a table
-   of flat choices with [Derive.derives] of the grammar [to_cfg] reads from it; tables that still contain set /
-   lookahead nonterminals are outside that bridge (sets are resolved by C15).
-   NOT PROVED: that [expand_checks] holds for every well-formed model (i.e. that sortTail always builds a
-   permutation); it is evaluated per run instead.  Building blocks proved for all inputs (this round):
-   C13_sort_tail_sort_partial -- the sort inside sortTail permutes its local list, the local list has no
-   duplicates, and every permutation of 0..n-1 passes the check perm_ok; missing: the loop invariant of phase 1
-   (the slots start+base+k handed out by sortTail are exactly the slots the local nonterminals held before).
-   The per-step theorems keep the suffix _partial. *)
+   table of nonterminal values defined as the least solution (Knaster-Tarski) of its equations.  Its only
+   hypothesis is the STATIC boolean [ExpandWf.wf_model] over the input model (references in range; every list
+   separator reached by expandExpr expands to exactly one alternative, [n_alts sep = 1] -- the "only simple
+   separators" condition whose violation is the log.Fatal of Expand).  C13_wf_model_checks derives the run-time
+   side conditions [expand_checks] of C13_expand_correct (no Fatal branch, references of the input and of the
+   intermediate table in range, the permutation built by sortTail is a permutation) from it, for every model:
+   the loop invariant of phase 1 ([Expand_wf_proofs.pinv]: the slots of the already sorted nonterminals are a
+   permutation of 0..start+base-1, sortTail hands the slots start+base+k to a duplicate-free local list that is
+   a permutation of the positions not yet sorted), references only grow by extracted nonterminals, and the
+   number of alternatives produced by expandExpr is the static [n_alts].  ./check still evaluates both
+   booleans on every generated model (a loader/generator change that breaks wf_model is reported).
+   C13_flat_table_is_cfg identifies the least solution of a table of flat choices with [Derive.derives] of the
+   grammar [to_cfg] reads from it; tables that still contain set / lookahead nonterminals are outside that
+   bridge (sets are resolved by C15).
+   The per-step theorem about one nonterminal keeps its historical suffix _partial (it is a step of the whole). *)
 
-(* the whole of Expand *)
+(* the whole of Expand, static hypothesis only *)
+Theorem C13_expand_correct_wf :
+  forall setden m,
+    wf_model m = true ->
+    forall X, nterms m <= X < nterms m + Z.of_nat (length (m_nonterms m)) -> forall w,
+      lfp (nterms m) setden (map nt_value (m_nonterms m)) X w <->
+      lfp (nterms m) setden (map snd (res_nonterms (expand m))) (perm_sym (nterms m) (x_perm (snd (phase1 m))) X) w.
+Proof. exact expand_correct_wf. Qed.
+
+(* the static predicate implies the run-time side conditions: no Fatal branch, references stay in range through
+   phase 1, sortTail builds a permutation *)
+Theorem C13_wf_model_checks : forall m, wf_model m = true -> expand_checks m = true.
+Proof. exact wf_model_expand_checks. Qed.
+
+(* expandExpr under the static predicate: the number of alternatives is the static n_alts, the Fatal flag is
+   untouched, every produced alternative only mentions existing nonterminals *)
+Theorem C13_expand_expr_static :
+  forall c e st alts st',
+    bounded (cT c + Z.of_nat (n_orig c)) e = true -> seps_ok e = true -> xinv c st ->
+    expand_expr c st e = (alts, st') ->
+    length alts = n_alts e /\ x_fatal st' = x_fatal st /\ xinv c st' /\
+    Forall (fun a => bounded (cT c + Z.of_nat (n_orig c) + Z.of_nat (x_extra st')) a = true) alts.
+Proof.
+  intros c e st alts st' Hb Hs Hi Hx.
+  destruct (expand_expr_wf c e st alts st' Hb Hs Hi Hx) as (A & (_ & _ & F & _) & C & D). auto.
+Qed.
+
+(* the whole of Expand, run-time side conditions *)
 Theorem C13_expand_correct :
   forall setden m,
     expand_checks m = true ->
@@ -121,8 +151,8 @@ Theorem C13_expand_shape :
 Proof. exact expand_expr_shape. Qed.
 
 (* sortTail: the sort is a sort (all name functions, all lists); the local list is duplicate free; a permutation
-   of 0..n-1 satisfies the run-time check of C13_expand_correct *)
-Theorem C13_sort_tail_sort_partial :
+   of 0..n-1 satisfies the run-time check of C13_expand_correct (building blocks of C13_wf_model_checks) *)
+Theorem C13_sort_tail_sort :
   (forall names l, Permutation (sort_by_name names l) l) /\
   (forall start curr total size, (S curr <= total - size)%nat ->
      NoDup (seq start (S curr - start) ++ seq (total - size) size)) /\
@@ -150,8 +180,14 @@ Example C13_example_shape :
   ext_derives 3 (fun _ => [0; 1]) (map nt_value (m_nonterms ex_model)) 3 [0; 1] = false.
 Proof. vm_compute. repeat split; reflexivity. Qed.
 
-Example C13_example_checks : expand_checks ex_model = true.
-Proof. vm_compute. reflexivity. Qed.
+Example C13_example_checks : expand_checks ex_model = true /\ wf_model ex_model = true.
+Proof. vm_compute. split; reflexivity. Qed.
+
+(* the static condition is tight on separators: a separator with two alternatives reaches the Fatal branch *)
+Example C13_example_not_wf :
+  let m := mkModel [[97]; [98]] [] [mkNt [78; 48] [] (EList 1 (ERef 0 []) (Some (EOpt (ERef 1 [])))) 0] [mkInput 0 false] [] in
+  wf_model m = false /\ res_fatal (expand m) = true.
+Proof. vm_compute. split; reflexivity. Qed.
 
 Example C13_example_hypotheses :
   x_fatal (snd (phase1 ex_model)) = false /\
@@ -159,6 +195,9 @@ Example C13_example_hypotheses :
      bounded (nterms ex_model + Z.of_nat (length (m_nonterms ex_model))) (value_at ex_model i) = true).
 Proof. split; [vm_compute; reflexivity|]. intros [|i] Hi; [vm_compute; reflexivity | cbn in Hi; lia]. Qed.
 
+Print Assumptions C13_expand_correct_wf.
+Print Assumptions C13_wf_model_checks.
+Print Assumptions C13_expand_expr_static.
 Print Assumptions C13_expand_correct.
 Print Assumptions C13_expand_preserves.
 Print Assumptions C13_flat_table_is_cfg.
@@ -170,4 +209,4 @@ Print Assumptions C13_expand_preserves_partial.
 Print Assumptions C13_list_rules_unfold.
 Print Assumptions C13_equal_expressions_same_language.
 Print Assumptions C13_expand_shape.
-Print Assumptions C13_sort_tail_sort_partial.
+Print Assumptions C13_sort_tail_sort.
